@@ -155,7 +155,7 @@ func predMembership(fv ssa.Value) (set ssa.Value, negated, ok bool) {
 
 // fromPkgCall: v is (a variable holding) the result of a call to a function of the analysed package.
 func (c *Ctx) fromPkgCall(v ssa.Value) *ssa.Function {
-	for _, src := range traceSources(v) {
+	for _, src := range traceSourcesDeep(v) {
 		// a captured variable's cell
 		if a, ok := src.(*ssa.Alloc); ok {
 			for _, sv := range cellStores(a) {
